@@ -103,7 +103,7 @@ func VerifHelium(arg string) {
 			}()
 		}
 	}
-	sets := [][]string{{"core-1"}, {"core-1", "core-2"}, {}}
+	sets := [][]string{{"core-1"}, {"core-1", "core-2"}, {}, {"core-3"}, {"core-1", "core-3"}} // incl. sets of equal size and different content
 	var latest []string
 	pushed := false
 	for step := 0; step < steps; step++ {
